@@ -21,6 +21,8 @@ RULE = (
     'or (asynchronous clean-up) the cancellation has been raised in it in that step; TaskCancelled.subject/token; no activity is still suspended in `await task` at the end of a time step in which the task is done; a plain Scope is never '
     'aborted without a failing child. non-trivial = >= 1 cancel judged; distinct = trace'
 )
+RULE = RULE + (' Further: a task of a finished simulation cancelled by a later one, tasks due at a date (also date 0 on a negative clock) cancelled before it - none of their code runs before their start date, exception instances as results, every cancel() of a surviving task is delivered.')
+
 LEVEL_TEXT = (
     'Fault enumeration by runtime monitoring: cancel() is injected at every activation boundary '
     'of generated programs (thorough) while a lifecycle monitor samples Task.status at every '
